@@ -296,6 +296,40 @@ def check(run):
             nb += 1
             if nb <= 4:
                 run.fail('D2', f'HashMap round trip[{rd}]', f'{tag}: read back {str(got)[:120]}, stored {str(want)[:120]}', w_ser, witness=dict(width=width, keys=[str(k) for k in (order or keys)], reader=rd))
+    # custom key deserialisers get the whole key: `width` bits, leading zeros included (the bit-string / bytes / signed key forms depend on it)
+    for width, keys in ((1, (0, 1)), (3, (0, 1, 3, 6)), (8, (0, 3, 77, 200)), (16, (1, 255, 256, 40000))):
+        for rd in ('parse', 'load_hashmap', 'load_dict', 'preload_dict'):
+            it = Interp(prog)
+            tag = f'w={width},keys={list(keys)},key_deserializer'
+            try:
+                hm = new_map(it, prog, width, 'uint')
+                for k in keys:
+                    cm.call_method(it, hm, 'set', K(k), K(VAL(k, width)))
+                cell = cm.call_method(it, hm, 'serialize')
+                kd, val = lam(prog, 'lambda bits: bits'), lam(prog, 'lambda v: v.load_uint(8)')
+                if rd == 'parse':
+                    res = it.invoke(prog.method('HashMap', 'parse'), [cm.call_method(it, cell, 'begin_parse'), K(width), kd, val], {})
+                elif rd == 'load_hashmap':
+                    res = cm.call_method(it, cm.call_method(it, cell, 'begin_parse'), 'load_hashmap', K(width), kd, val)
+                else:
+                    b = it.construct(prog.cls('Builder'), [], {})
+                    cm.call_method(it, b, 'store_dict', cell)
+                    res = cm.call_method(it, cm.call_method(it, cm.call_method(it, b, 'end_cell'), 'begin_parse'), rd, K(width), kd, val)
+
+                def bits_of_key(k):
+                    if isinstance(k, K) and isinstance(k.v, str):
+                        return k.v
+                    nat = k.native if isinstance(k, Inst) else k
+                    return nat.pattern() if isinstance(nat, BA) else repr(k)
+                got = [(bits_of_key(k), v.v if isinstance(v, K) else repr(v)) for k, v in zip(res.keyobj.values(), res.d.values())] if isinstance(res, DictV) else repr(res)
+                want = [(format(k, f'0{width}b'), VAL(k, width)) for k in sorted(keys)]
+                ok, why = got == want, f'keys handed to the deserialiser / values: {str(got)[:140]}; expected {str(want)[:140]}'
+            except RaiseEx as e:
+                ok, why = False, f'raises {e}'
+            except Fail as e:
+                raise AnalysisError(f'round trip {tag} via {rd}: {e}')
+            run.check(ok, 'D2', f'HashMap round trip[{rd}, custom key deserialiser]' if not ok else f'{rd}[{tag}]', f'{tag}: {why}', w_ser, witness=dict(width=width, keys=list(keys), reader=rd))
+            run.evaluations += 1
     # value serialisers
     for ser, vals, rdsrc in (('int', {1: -256, 2: 255, 6: -1}, 'lambda v: v.load_int(9)'),
                              ('coins', {0: 0, 3: 1, 7: (1 << 120) - 1}, 'lambda v: v.load_coins()'),
